@@ -141,21 +141,18 @@ def chinook_schema():
             sch[os.path.basename(f)[:-4]] = next(csv.reader(fh))
     return sch
 
-def check(tier):
-    rep = Report("C07", tier)
-    d = workdir("C07")
-    build_harness()
+def build_sources(tier, d, rnd, tag="C07"):
+    """the programs C07 compiles for every dialect (also the corpus of the back-end machine check, lib/backendrun.py)"""
     dbset = os.path.join(ROOT, "corpus", "dbs_quick.json")
-    rnd = random.Random(seed())
     # (a) programs of the L1 language model: bounded-exhaustive + window slots + random, declared and open
     progs = []
-    p1, info = l1.mc_generate("C07-mc", model([from_("t")], l1props.alph_c01(), 3 if tier == "quick" else 4), dbset, workers=8)
+    p1, info = l1.mc_generate(tag + "-mc", model([from_("t")], l1props.alph_c01(), 3 if tier == "quick" else 4), dbset, workers=8)
     states, transitions = info["distinct"], info["generated"]
     progs += p1 if tier == "thorough" else rnd.sample(p1, min(len(p1), 700))
-    p5, info5 = l1.mc_generate("C07-mc5", model([from_("t")], l1props.alph_c05(), 3 if tier == "quick" else 4), dbset, workers=8)
+    p5, info5 = l1.mc_generate(tag + "-mc5", model([from_("t")], l1props.alph_c05(), 3 if tier == "quick" else 4), dbset, workers=8)
     progs += p5 if tier == "thorough" else rnd.sample(p5, min(len(p5), 500)); states += info5["distinct"]; transitions += info5["generated"]
     for sl in (l1props.slots_c04_top, l1props.slots_c04_group):
-        p2, info2 = l1.mc_generate("C07-slots", model([from_("t")], sl("quick"), 4), dbset, workers=8)
+        p2, info2 = l1.mc_generate(tag + "-slots", model([from_("t")], sl("quick"), 4), dbset, workers=8)
         states += info2["distinct"]; transitions += info2["generated"]
         progs += (p2 if tier == "thorough" else rnd.sample(p2, min(len(p2), 250)))
     g = gen.G(seed(), safe=False, p_shadow=0.1, append_bare=0.3)
@@ -188,6 +185,14 @@ def check(tier):
     # (c) constructs x dialects: std functions, operators, casts, literals, set operations, loop, names like generated ones
     for n, s, sch in special():
         srcs.append({"id": "c-" + n, "src": s, **({"schema": sch} if sch else {})})
+    return srcs, prog_of, states, transitions
+
+def check(tier):
+    rep = Report("C07", tier)
+    d = workdir("C07")
+    build_harness()
+    rnd = random.Random(seed())
+    srcs, prog_of, states, transitions = build_sources(tier, d, rnd)
     src_of = {r["id"]: r for r in srcs}
     # shards -> pv sqlast (all 12 dialects) -> walks -> SqlScopeTrace
     import scoperun
@@ -200,10 +205,13 @@ def check(tier):
         verdicts[verdict] = verdicts.get(verdict, 0) + 1
         rep.violation({"property": "C07", "kind": verdict, "dialect": dialect, "id": pid_, "prql": src_of[pid_]["src"], "sql": rec.get("sql"),
                        "event": detail, "parse_error": rec.get("parse_error"), "prepare": rec.get("prepare"), "trace_file": rj["trace_file"], "line": rj["line"]}, sig)
+    # L2: the back-end machine (spec/Backend.tla): aggregate / window functions nested where SQL does not allow them
+    import backend
+    bcov, bstates, bn = backend.phase(rep, "C07", tier, sources=[{"id": s["id"], "src": s["src"]} for s in srcs])
     # binding demonstration: plant one scope defect of each kind into recorded statements and expect the rule's name
     selftest(d)
     cal = calibrate(d, 600 if tier == "quick" else 4000)
-    cov = {"monitor_calibration_against_sqlite": cal,"states": states + tstates, "transitions": transitions + nev, "traces_validated_against_impl": nq,
+    cov = {**bcov, "monitor_calibration_against_sqlite": cal,"states": states + tstates + bstates, "transitions": transitions + nev, "traces_validated_against_impl": nq + bn,
            "samples": [{"prql": srcs[0]["src"]}, {"prql": srcs[-1]["src"]}],
            "explanation": f"{len(srcs)} programs (bounded-exhaustive and random programs of the language model with declared and open schemas, repository queries over the chinook schema, book snippets, std functions / operators / casts / literals / set operations / loop x operand shapes, user names shaped like generated ones) x 12 dialects = {tot.get('compiled', 0) + tot.get('err', 0) + tot.get('panic', 0)} compilations; {nq} emitted statements re-parsed with the dialect's parser and their scope walk validated by SqlScopeTrace ({nev} events), {tot.get('prepared', 0)} also prepared by SQLite; compile errors ({tot.get('err', 0)}) are the allowed outcome for inexpressible constructs, panics ({tot.get('panic', 0)}) are C12's",
            "programs": len(srcs), "dialects": 12, "statements_judged": nq, "not_successful": nskip, "events": nev, "outcomes": tot,
